@@ -180,6 +180,15 @@ func runVer(toks []string) (string, string) {
 	if kind == "h" {
 		payload = block[strings.Index(block, "\r\n\r\n")+4:]
 	}
+	// On the parser path a declared length that is shorter than the generated block is not a
+	// disagreement when the bytes that follow it happen to be the end-of-record marker: the stream
+	// then IS a well-formed record of the declared length followed by other bytes (what follows is
+	// the business of the next read).  Such inputs say nothing about this property.
+	if n, err := strconv.Atoi(cl); path == "p" && err == nil && n >= 0 && n < len(block) {
+		if tail := block + "\r\n\r\n"; tail[n:n+4] == "\r\n\r\n" {
+			return "ambiguous", "OK"
+		}
+	}
 	// expectations
 	wantLen := cl != "none" && cl != strconv.Itoa(len(block))
 	wantBlock := bd != "none" && !digestAgrees(bd, []byte(block)) && !wantLen
